@@ -3,7 +3,7 @@
 (* loop of schema.go:186-243, with the inverse's target type compared) is  *)
 (* checked against the declarative Offending set over ALL schemas of a     *)
 (* bounded universe (TLC enumerates them as initial states).               *)
-EXTENDS Schema, Json
+EXTENDS Schema, Json, SequencesExt
 
 CONSTANTS TN, RN, XN, Missing   \* XN: further names an inverse may carry (misnamed inverses)
 
@@ -16,8 +16,8 @@ RelVals(owner) ==
 \* Schemas are grown one literal relationship at a time (no validation: Check
 \* must cope with any schema, however it was made), so TLC reaches every
 \* schema of the universe by breadth-first search.
-Init == s \in { <<EmptyType("a")>>, <<EmptyType("a"), EmptyType("b")>> }
-        \cup (IF "c" \in TN THEN {<<EmptyType("a"), EmptyType("b"), EmptyType("c")>>} ELSE {})
+Ord == SetToSeq(TN)
+Init == s \in { [i \in 1..k |-> EmptyType(Ord[i])] : k \in 1..Len(Ord) }
 Next == \E i \in 1..Len(s) : \E r \in RelVals(s[i].name) :
           /\ r.fn \notin DOMAIN s[i].rels
           /\ s' = [s EXCEPT ![i].rels = Put(s[i].rels, r.fn, r)]
